@@ -574,7 +574,15 @@ class FuncAnalysis:
             st.env[t.id] = v
         elif isinstance(t, (ast.Tuple, ast.List)):
             ev = self.elements_of(v, st, t)
-            for e in t.elts:
+            starred = any(isinstance(e, ast.Starred) for e in t.elts)
+            for i, e in enumerate(t.elts):
+                # tuples made by zip / enumerate keep their positions: `for a, row in zip(A, B)` gives row only B's elements
+                if not starred and v.locs and all(loc[0] == "F" and (loc, f"#{i}") in st.heap.d for loc in v.locs):
+                    pv = NOV
+                    for loc in v.locs:
+                        pv = pv.join(st.heap.d[(loc, f"#{i}")][0])
+                    self.assign(e, pv, st, stmt)
+                    continue
                 self.assign(e.value if isinstance(e, ast.Starred) else e, ev, st, stmt)
         elif isinstance(t, ast.Attribute):
             base = self.expr(t.value, st)
@@ -1158,6 +1166,10 @@ class FuncAnalysis:
                 v = v.join(self.elements_of(a, st, node))
             tup = self.fresh(node, "#tuple")
             st.heap.write([tup], "*", v, weak=True)
+            if name in ("enumerate", "zip") and not any(isinstance(a_, ast.Starred) for a_ in getattr(node, "args", [])):
+                pos = ([NOV] if name == "enumerate" else []) + [self.elements_of(a, st, node) for a in (args[:1] if name == "enumerate" else args)]
+                for i_, pv in enumerate(pos):
+                    st.heap.d[(tup, f"#{i_}")] = (pv, True)
             st.heap.write([f], "*", V(frozenset({tup}), frozenset({"tuple"})) if v.locs else NOV, weak=True)
             return V(frozenset({f}), frozenset({"list"}))
         if name == "next":
